@@ -1,3 +1,5 @@
+mod evalcommon;
+mod evgen;
 mod fmtcommon;
 mod gen_wasm_format;
 mod progen;
